@@ -218,7 +218,7 @@ func (SMRespEngine) Gen(prop, tier string, seed uint64, yield func(c any) bool) 
 	// part 2: seeded adversarial deliveries over histories
 	n := 40000
 	if tier == "thorough" {
-		n = 1500000
+		n = 6000000
 	}
 	for i := 0; i < n; i++ {
 		c := RespCase{Seed: rng.U64(), Suite: allSuites[i%4], SSC: genSSCMode(rng), Hist: rng.Intn(12), UseNfc: rng.Bool(),
@@ -655,7 +655,7 @@ func (SMCmdEngine) Gen(prop, tier string, seed uint64, yield func(c any) bool) {
 	rng := core.NewRng(core.SubSeed(seed, "smduel-cmd", tier))
 	n := 6000
 	if tier == "thorough" {
-		n = 250000
+		n = 400000
 	}
 	for i := 0; i < n; i++ {
 		c := CmdCase{Seed: rng.U64(), Suite: allSuites[i%4], SSC: genSSCMode(rng), N: rng.Range(1, 40), NoExt: rng.Chance(1, 4), BigData: rng.Chance(1, 25), Profile: rng.Intn(4)}
